@@ -284,13 +284,55 @@ fn b64_part(ctx: &Ctx) {
             }
         }
     }
+    // non-ASCII text whose UTF-8 bytes, with the top bit dropped, are alphabet symbols (a decoder that indexes a 128-entry
+    // table with `byte & 0x7f` would accept them): every pair of such two-byte characters, and each of them next to ASCII
+    {
+        let mut alias: Vec<char> = Vec::new();
+        for c in 0x80u32..0x800 {
+            if let Some(ch) = char::from_u32(c) {
+                let mut b = [0u8; 4];
+                let e = ch.encode_utf8(&mut b).as_bytes().to_vec();
+                if e.iter().all(|x| B64.contains(&(x & 0x7f)) || (x & 0x7f) == b'=') {
+                    alias.push(ch);
+                }
+            }
+        }
+        let mut n = 0u64;
+        let mut first: Option<(Fail, String)> = None;
+        let mut test = |s: String| {
+            n += 1;
+            if first.is_none() {
+                if let Some(f) = check_b64_decode(&s) {
+                    first = Some((f, s));
+                }
+            }
+        };
+        for a in &alias {
+            for b in &alias {
+                test(format!("{}{}", a, b));
+            }
+            test(format!("{}AA", a));
+            test(format!("AA{}", a));
+            test(format!("A{}A", a));
+            test(format!("Zm9v{}==", a));
+            test(format!("{}A==", a));
+        }
+        ctx.bulk_n(n, n);
+        ctx.label("b64-decode:non-ascii-aliasing", n);
+        ctx.sample("b64-decode:non-ascii-aliasing", || json!({"text": "ññ", "reference": "Reject"}));
+        if let Some((f, s)) = first {
+            if !ctx.tolerate(&f) {
+                ctx.violation(f, "b64-decode", json!({"text": s}));
+            }
+        }
+    }
     // malformed / multi-group strings, random
     let cases = ctx.tier.pick(40_000u32, 1_000_000u32);
     crate::engine::shards(8, |i| {
         let sym = prop_oneof![
             12 => (0u8..64).prop_map(|k| B64[k as usize] as char),
             2 => Just('='),
-            1 => prop_oneof![Just('-'), Just('_'), Just(' '), Just('\n'), Just('é'), Just('*')],
+            1 => prop_oneof![Just('-'), Just('_'), Just(' '), Just('\n'), Just('é'), Just('*'), Just('ñ'), Just('°')],
         ];
         let strat = proptest::collection::vec(sym, 0..14).prop_map(|v| v.into_iter().collect::<String>());
         pt::run(
